@@ -266,6 +266,8 @@ def b_len(ex, vals, s, e):
         return [X.Res(s, SV(INT, l_len(v.t, v.z)))]
     if isinstance(v.t, TDict):
         return [X.Res(s, SV(INT, l_len(v.t.keys_t, d_keys(v.t, v.z))))]
+    if isinstance(v.t, TKeys):
+        return [X.Res(s, SV(INT, l_len(v.t.d.keys_t, d_keys(v.t.d, v.z))))]
     if isinstance(v.t, TTuple):
         return [X.Res(s, sv_int(len(v.z)))]
     raise Unbound('len of %s' % v.t)
